@@ -239,7 +239,11 @@ Definition create (init meta : bytes) : option wstate :=
    hdrLen+4, 4*512:           hash table of uint32 heads
    ... to limit:              records: 0,8 value; 8,4 name length; 12,4 next; 16.. name
    (the top byte of the name length word is a tag the library sets to 0xff
-    and masks away when reading; the layout comment does not mention it) *)
+    and masks away when reading; the layout comment does not mention it)
+
+   The numbers of the v1 format (32-byte units, 16 KiB pages, 512 buckets,
+   names up to 4096 bytes) are written as literals here: the checker states
+   the published format, it does not follow the constants of the source. *)
 
 Definition cut_nul (b : bytes) : bytes :=
   match index_byte b 0 with Some i => firstn i b | None => b end.
@@ -272,7 +276,7 @@ Definition spec_header (bs : bytes) : option (N * bytes) :=
   | None => None
   end.
 
-Definition rec_size (namelen : N) : N := (16 + namelen + c_recordUnit - 1) / c_recordUnit * c_recordUnit.
+Definition rec_size (namelen : N) : N := (16 + namelen + 32 - 1) / 32 * 32.
 
 Definition rec := (N * bytes * N)%type. (* offset, name, value *)
 Definition r_off (r : rec) : N := fst (fst r).
@@ -282,14 +286,14 @@ Definition r_end (r : rec) : N := r_off r + rec_size (len (r_name r)).
 
 (* one record at off, strictly by the layout *)
 Definition spec_record (bs : bytes) (hdr limit off : N) : option (bytes * N * N) :=
-  if negb (off mod c_recordUnit =? 0) then None else
+  if negb (off mod 32 =? 0) then None else
   if off <? first_off hdr then None else
   let t := dropN bs off in
   let nl := get32 t 8 mod 16777216 in
-  if (nl =? 0) || (c_maxNameLen <? nl) then None else
+  if (nl =? 0) || (4096 <? nl) then None else
   let sz := rec_size nl in
   if limit <? off + sz then None else
-  if c_pageSize - c_recordUnit <? off mod c_pageSize + sz then None else
+  if 16384 - 32 <? off mod 16384 + sz then None else
   Some (slice t 16 nl, get32 t 12, get64 t 0).
 
 Fixpoint spec_chain (fuel : nat) (bs : bytes) (hdr limit off : N) : option (list rec) :=
@@ -308,7 +312,7 @@ Fixpoint spec_chain (fuel : nat) (bs : bytes) (hdr limit off : N) : option (list
   end.
 
 (* a chain cannot hold more records than there are units below the limit *)
-Definition chain_fuel (limit : N) : nat := N.to_nat (limit / c_recordUnit).
+Definition chain_fuel (limit : N) : nat := N.to_nat (limit / 32).
 
 Definition spec_bucket (bs : bytes) (hdr limit i head : N) : option (list rec) :=
   match spec_chain (chain_fuel limit) bs hdr limit head with
@@ -327,7 +331,7 @@ Definition table_heads (bs : bytes) (hdr : N) : list N :=
 
 Fixpoint range_from (start : N) (k : nat) : list N :=
   match k with O => [] | S k' => start :: range_from (start + 1) k' end.
-Definition buckets : list N := range_from 0 (N.to_nat c_numHash).
+Definition buckets : list N := range_from 0 512.
 
 Fixpoint map_opt {A B} (f : A -> option B) (l : list A) : option (list B) :=
   match l with
@@ -359,8 +363,8 @@ Definition spec_read (bs : bytes)
       | Some kv =>
           let size := len bs in
           let limit := get32 bs (hdr + c_limitOff) in
-          if negb ((size mod c_pageSize =? 0) && (c_minFileLen <=? size) && (limit <=? size)
-                   && (limit mod c_recordUnit =? 0)
+          if negb ((size mod 16384 =? 0) && (16384 <=? size) && (limit <=? size)
+                   && (limit mod 32 =? 0)
                    && ((limit =? 0) || (first_off hdr <=? limit)))
           then None else
           match map_opt (fun ih => spec_bucket bs hdr limit (fst ih) (snd ih))
@@ -392,19 +396,19 @@ Definition spec_decode (bs : bytes) : option (list (bytes * bytes) * list (bytes
    would reach into the last unit of its page; plain name length (no tag);
    linked at the head of its bucket. *)
 Definition spec_place (cur n : N) : N :=
-  if cur mod c_pageSize + n <=? c_pageSize - c_recordUnit then cur
-  else (cur / c_pageSize + 1) * c_pageSize.
+  if cur mod 16384 + n <=? 16384 - 32 then cur
+  else (cur / 16384 + 1) * 16384.
 
 Definition spec_insert (hdr : N) (bs : bytes) (c : bytes * N) : bytes :=
   let '(name, v) := c in
   let limit0 := get32 bs (hdr + c_limitOff) in
-  let cur := if limit0 =? 0 then (first_off hdr + c_recordUnit - 1) / c_recordUnit * c_recordUnit
+  let cur := if limit0 =? 0 then (first_off hdr + 32 - 1) / 32 * 32
              else limit0 in
   let n := rec_size (len name) in
   let s := spec_place cur n in
   let e := s + n in
   let bs1 := if len bs <? e
-             then bs ++ zeros ((e + c_pageSize - 1) / c_pageSize * c_pageSize - len bs) else bs in
+             then bs ++ zeros ((e + 16384 - 1) / 16384 * 16384 - len bs) else bs in
   let ho := head_off hdr (hash name) in
   let head := get32 bs1 ho in
   let bs2 := put bs1 (hdr + c_limitOff) (le32 e) in
@@ -415,7 +419,7 @@ Definition spec_insert (hdr : N) (bs : bytes) (c : bytes * N) : bytes :=
 Definition spec_encode (meta : bytes) (cs : list (bytes * N)) : option bytes :=
   match mapped_header meta with
   | None => None
-  | Some h => Some (fold_left (spec_insert (len h)) cs (h ++ zeros (c_minFileLen - len h)))
+  | Some h => Some (fold_left (spec_insert (len h)) cs (h ++ zeros (16384 - len h)))
   end.
 
 (* ------------------------------------------------------------------ *)
@@ -425,11 +429,11 @@ Definition spec_encode (meta : bytes) (cs : list (bytes * N)) : option bytes :=
 Definition place_ok_b (hdr limit namelen : N) (se : N * N) : bool :=
   let '(s, e) := se in
   let lim := if limit =? 0 then first_off hdr else limit in
-  (s mod c_recordUnit =? 0) && (lim <=? s) && (s <? lim + c_pageSize)
+  (s mod 32 =? 0) && (lim <=? s) && (s <? lim + 16384)
   && (e =? s + rec_size namelen)
-  && (s mod c_pageSize + rec_size namelen <=? c_pageSize - c_recordUnit)
-  && ((s =? (lim + c_recordUnit - 1) / c_recordUnit * c_recordUnit)
-      || (s mod c_pageSize =? 0)).
+  && (s mod 16384 + rec_size namelen <=? 16384 - 32)
+  && ((s =? (lim + 32 - 1) / 32 * 32)
+      || (s mod 16384 =? 0)).
 
 Definition limit_of (bs : bytes) : N :=
   match spec_header bs with Some (hdr, _) => get32 bs (hdr + c_limitOff) | None => 0 end.
